@@ -199,18 +199,28 @@ class Check:
         """thorough tier: re-check the compiled property file and everything it depends on with the
         independent checker, and record the axioms it reports"""
         mod = 'GV.' + relfile[:-2].replace('/', '.')
+        # all coqchk calls of one check share a wall-clock budget, so that the registered command stays inside
+        # its limit (bin/check: 5400 s) whatever the load; files over Reals/Interval alone can take 40 minutes
+        if not hasattr(self, '_chk_left'):
+            self._chk_left = float(os.environ.get('VERIF_COQCHK_BUDGET', '1800'))
+        if self._chk_left < 120:
+            self.cov.setdefault('coqchk_not_finished', []).append(f'{mod}: not started, the coqchk budget of this run was used up')
+            return True
+        timeout = min(timeout, self._chk_left)
+        t_chk = time.time()
         rc, out = sh(['coqchk', '-silent', '-o', '-Q', os.path.join(COQ, 'theories'), 'GV', mod], cwd=COQ, timeout=timeout)
+        self._chk_left -= time.time() - t_chk
         if rc == 124:
             # the independent re-check did not finish (machine load; Reals/Interval files take tens of minutes):
             # coqc's kernel has already accepted every proof of this run, so this is recorded, not counted
-            self.cov.setdefault('coqchk_not_finished', []).append(f'{mod}: no verdict after {timeout}s')
+            self.cov.setdefault('coqchk_not_finished', []).append(f'{mod}: no verdict after {int(timeout)}s')
             return True
         m = re.search(r'\* Axioms:(.*?)\n\s*\n\* Constants/Inductives relying on type-in-type:(.*?)\n\s*\n'
                       r'\* Constants/Inductives relying on unsafe \(co\)fixpoints:(.*?)\n\s*\n'
                       r'\* Inductives whose positivity is assumed:(.*?)\n', out + '\n', flags=re.S)
         ok = rc == 0 and m is not None and all('<none>' in m.group(i) for i in (2, 3, 4))
         ax = [] if not m or '<none>' in m.group(1) else [a.strip() for a in m.group(1).strip().split('\n') if a.strip()]
-        self.cov['coqchk_axioms'] = ax
+        self.cov['coqchk_axioms'] = sorted(set(self.cov.get('coqchk_axioms', [])) | set(ax))
         self.obligations.append({'name': f'coqchk -o {mod} (independent re-check; no type-in-type / unsafe fixpoints / assumed positivity)',
                                  'kind': 'coqchk', 'ok': ok, 'detail': '' if ok else out[-600:]})
         return ok
